@@ -469,7 +469,9 @@ fn work_item(tier: &str, seed: u64, idx: u64, exhaustive: &[String], n_random: u
 
 pub fn check(tier: &str, seed: u64) -> i32 {
     let t0 = std::time::Instant::now();
-    let exhaustive = crongen::exhaustive_single_items();
+    let n_single = crongen::exhaustive_single_items().len();
+    let mut exhaustive = crongen::exhaustive_single_items();
+    exhaustive.extend(crongen::exhaustive_pairs());
     let (n_random, n_bases): (u64, u64) = match tier {
         "quick" => (2_000, 200),
         _ => (20_000, 5_000),
@@ -538,7 +540,9 @@ pub fn check(tier: &str, seed: u64) -> i32 {
         .set("rule", Json::s("one evaluation = one expression decided: parse outcome (both CronSchedule::parse and FromStr) against the reference grammar's accept/reject/undetermined verdict, and for accepted satisfiable expressions the denoted sets read back through pinned-clock membership probes (60 minutes of an hour, 24 hours of a day, two days in each of 12 months, a day sweep) and a simulated daemon's firing history. distinct_nontrivial = distinct expression strings that the reference accepts (i.e. whose denoted sets were actually read back or, if unsatisfiable, whose acceptance was checked); rejected and undetermined strings are not counted"))
         .set("samples", Json::Arr(stats.samples.iter().map(|(_, j)| j.clone()).collect()))
         .set("exhaustive_subspace", Json::s("every single value, every range a<=b (weekday ranges up to 7), every step 1..=max+1, every name and name range in four case styles, in each of the five fields with the other four `*`"))
-        .set("exhaustive_subspace_size", Json::u(exhaustive.len()))
+        .set("exhaustive_subspace_size", Json::u(n_single))
+        .set("exhaustive_subspace_2", Json::s("every pair of values as a two-item list per field; every (day-of-month, day-of-week 0-7) combination with both day fields given; range-next-to-step lists per field"))
+        .set("exhaustive_subspace_2_size", Json::u(exhaustive.len() - n_single))
         .set("exhaustive", Json::Bool(false))
         .set("distinct_expressions", Json::Int(stats.distinct("c16.distinct_expr") as i128))
         .set("sources", stats.counters_json("c16.source."))
